@@ -1821,6 +1821,19 @@ pub fn check_c07(ix: &Ix<'_>, v: &mut Vec<Violation>) {
             None => {
                 viol(v, "C07", format!("C07/op-left-waiting/{role}/{kind}"), format!("sender {} op {} ({}) started at step {} never resolved after the connection ended", o.sender, o.op, o.brief, o.start), ix.last_seq);
             }
+            Some((dq, OpResult::Ok(_))) if o.brief == "Ready" => {
+                // a readiness future that was pending when the connection ended reports "not ready": once the
+                // Stop notification has been handled nothing can make the sink ready again (a wake-up the
+                // waiter had already been given does not count: the connection is over when it looks)
+                if let Some(h) = stop_handled
+                    && h != u64::MAX
+                    && *dq > h
+                    && o.start < h
+                    && *dq > o.start
+                {
+                    viol(v, "C07", format!("C07/ready-true-after-end/{role}"), format!("sender {} op {} (ready()) was pending when the connection ended (Stop handled at step {h}) and resolved `true` at step {dq}", o.sender, o.op), *dq);
+                }
+            }
             Some((dq, OpResult::Err(e))) => {
                 // a future that was pending (parked or awaiting its ack) across the end of the connection;
                 // calls that fail on the spot may report whatever made them fail
